@@ -256,12 +256,21 @@ func init() {
 				}
 				nlw++
 				construct := "state." + fname + " ← " + fn.Name()
-				if !ow[fn.Name()] {
+				// a piece of an owning action (a helper that only that action reaches) writes on its behalf
+				piece := !ow[fn.Name()] && p.calledOnlyFromAny(fn, ow, 0)
+				if !ow[fn.Name()] && !piece {
 					c.viol("lock-writes", construct, p.Pos(posOf(in, fn)), "consensus state variable "+fname+" is written outside its owning rule action")
 					return
 				}
-				if (fname == "lockedValue" || fname == "lockedRound") && fn.Name() == "doProposalAndPolkaCurrent" {
-					ok, miss := everyDisjunctHas(p.mustHoldAt(in), []string{"s.state.step == types.StepPrevote"})
+				if (fname == "lockedValue" || fname == "lockedRound") && (fn.Name() == "doProposalAndPolkaCurrent" || (piece && p.calledOnlyFrom(fn, "doProposalAndPolkaCurrent", 0))) {
+					d := p.mustHoldAt(in)
+					if piece {
+						// the step test may stand in the helper or in front of its call
+						for _, cs := range p.callersOf(fn) {
+							d = p.mustHoldChain(in, []Site{cs})
+						}
+					}
+					ok, miss := everyDisjunctHas(d, []string{"s.state.step == types.StepPrevote"}, []string{"types.StepPrevote == s.state.step"})
 					c.check(ok, "lock-writes", construct, p.Pos(posOf(in, fn)), "lock is taken only under step = prevote (paper line 37)", "the lock is taken outside step = prevote: "+miss)
 					return
 				}
